@@ -500,3 +500,132 @@ Proof.
   rewrite (nfft_twice_half n) at 2. rewrite mult_INR. cbn [INR].
   field. apply not_0_INR. lia.
 Qed.
+
+(* ================================================================== *)
+(* spectra with energy in a single direction column                      *)
+(* ================================================================== *)
+Lemma amp_zero : forall c area ph w th, amp c area 0 ph w th = (0, 0).
+Proof.
+  intros. unfold amp. replace (area * 0 / 2) with 0 by field. rewrite sqrt_0.
+  destruct (factor c w th). f_equal; ring.
+Qed.
+
+Lemma nth_all_zero : forall (l : list R) i, (forall v, In v l -> v = 0) -> nth i l 0 = 0.
+Proof.
+  intros l i H. destruct (lt_dec i (length l)) as [Hi|Hi].
+  - apply H. apply nth_In. exact Hi.
+  - apply nth_overflow. lia.
+Qed.
+
+Lemma interp0_zeros : forall xp e x, (forall v, In v e -> v = 0) -> interp0 xp e x = 0.
+Proof.
+  intros xp e x H. unfold interp0.
+  destruct (Rlt_dec x (hd 0 xp)); [reflexivity|].
+  destruct (Rlt_dec (last xp 0) x); [reflexivity|].
+  destruct (Req_EM_T x (last xp 0)).
+  - rewrite last_nth_eq. apply nth_all_zero. exact H.
+  - rewrite (nth_all_zero e _ H), (nth_all_zero e _ H). ring.
+Qed.
+
+Definition col_e (col : column) : list R := snd col.
+
+(* all columns except number j carry no energy: the bin amplitude is that of column j with ITS phase *)
+Lemma bin_amp_single : forall c xp f df cols phases j,
+  (j < length cols)%nat -> (length cols <= length phases)%nat ->
+  (forall i, i <> j -> (i < length cols)%nat -> interp0 xp (col_e (nth i cols (0, 0, []))) f = 0) ->
+  bin_amp c xp f df cols phases = bin_amp c xp f df [nth j cols (0, 0, [])] [nth j phases 0].
+Proof.
+  intros c xp f df cols. induction cols as [|[[th dth] e] cols IH]; intros phases j Hj Hlen Hz; [cbn in Hj; lia|].
+  destruct phases as [|ph phases]; [cbn in Hlen; lia|].
+  assert (Hrest0 : forall phs, (forall i, (i < length cols)%nat -> interp0 xp (col_e (nth i cols (0, 0, []))) f = 0) ->
+                   bin_amp c xp f df cols phs = (0, 0)).
+  { clear. induction cols as [|[[th dth] e] cols IH]; intros phs H; [reflexivity|].
+    destruct phs as [|p phs]; [reflexivity|]. cbn [bin_amp].
+    assert (E0 : interp0 xp e f = 0) by (apply (H O); cbn; lia).
+    rewrite E0, amp_zero. rewrite IH.
+    - unfold cadd. cbn. f_equal; ring.
+    - intros i Hi. apply (H (S i)). cbn. lia. }
+  destruct j as [|j].
+  - cbn [nth bin_amp]. rewrite Hrest0; [reflexivity|].
+    intros i Hi. apply (Hz (S i)); [lia|cbn; lia].
+  - cbn [bin_amp].
+    assert (E0 : interp0 xp e f = 0) by (apply (Hz O); [lia|cbn; lia]).
+    rewrite E0, amp_zero.
+    rewrite (IH phases j).
+    + change (nth (S j) ((th, dth, e) :: cols) (0, 0, [])) with (nth j cols (0, 0, [])).
+      change (nth (S j) (ph :: phases) 0) with (nth j phases 0).
+      destruct (bin_amp c xp f df [nth j cols (0, 0, [])] [nth j phases 0]) as [a b].
+      unfold cadd. cbn [fst snd]. f_equal; ring.
+    + cbn in Hj. lia.
+    + cbn in Hlen. lia.
+    + intros i Hij Hi. apply (Hz (S i)); [lia|cbn; lia].
+Qed.
+
+Lemma amplitudes_single : forall c xp fg dfs cols phases j,
+  (j < length cols)%nat ->
+  (forall row, In row phases -> (length cols <= length row)%nat) ->
+  (forall i x, i <> j -> (i < length cols)%nat -> interp0 xp (col_e (nth i cols (0, 0, []))) x = 0) ->
+  amplitudes c xp fg dfs cols phases
+  = amplitudes c xp fg dfs [nth j cols (0, 0, [])] (map (fun row => [nth j row 0]) phases).
+Proof.
+  intros c xp fg. induction fg as [|f fg IH]; intros dfs cols phases j Hj Hrows Hz; [reflexivity|].
+  destruct dfs as [|df dfs]; [reflexivity|]. destruct phases as [|ph phases]; [reflexivity|].
+  cbn [amplitudes map]. f_equal.
+  - apply bin_amp_single; [exact Hj|apply Hrows; left; reflexivity|].
+    intros i Hi Hl. apply Hz; assumption.
+  - apply IH; [exact Hj| |exact Hz]. intros row Hr. apply Hrows. right. exact Hr.
+Qed.
+
+(* ================================================================== *)
+(* the variance statement on surface_timeseries itself                   *)
+(* ================================================================== *)
+Lemma combine_dfs_value : forall fs n f df, (4 <= n)%nat ->
+  In (f, df) (combine (fft_freqs fs n) (frequency_step (fft_freqs fs n))) -> df = fs / INR (nfft n).
+Proof.
+  intros fs n f df Hn Hin. apply in_combine_r in Hin.
+  apply In_nth with (d := 0) in Hin. destruct Hin as (k & Hk & <-).
+  assert (HM : (2 <= nfft n / 2)%nat) by (rewrite nfft_half; apply Nat.div_le_lower_bound; lia).
+  destruct (fft_frequency_step fs n O Hn ltac:(lia)) as [Hl _]. rewrite Hl in Hk.
+  apply (fft_frequency_step fs n k Hn Hk).
+Qed.
+
+Lemma variance_of_timeseries : forall c fs n xp cols phases j t s,
+  (4 <= n)%nat -> 0 < fs ->
+  (j < length cols)%nat ->
+  length phases = (nfft n / 2)%nat ->
+  (forall row, In row phases -> (length cols <= length row)%nat) ->
+  (forall i x, i <> j -> (i < length cols)%nat -> interp0 xp (col_e (nth i cols (0, 0, []))) x = 0) ->
+  let '(th, dth, e) := nth j cols (0, 0, []) in
+  0 <= dth -> (forall x, 0 <= interp0 xp e x) ->
+  surface_timeseries c fs n xp cols phases = Some (t, s) ->
+  variance s = sumR (tl (energy_terms c xp (fft_freqs fs n) (frequency_step (fft_freqs fs n)) th dth e)).
+Proof.
+  intros c fs n xp cols phases j t s Hn Hfs Hj Hph Hrows Hz.
+  destruct (nth j cols (0, 0, [])) as [[th dth] e] eqn:Ecol.
+  intros Hdth He H.
+  unfold surface_timeseries in H. destruct (Nat.ltb (nfft n / 2) 2); [discriminate|].
+  inversion H; subst t s. clear H.
+  unfold spectrum_amplitudes.
+  rewrite (amplitudes_single c xp _ _ cols phases j Hj Hrows Hz). rewrite Ecol.
+  assert (HM : (2 <= nfft n / 2)%nat) by (rewrite nfft_half; apply Nat.div_le_lower_bound; lia).
+  rewrite (nfft_twice_half n) at 1.
+  apply variance_single_direction.
+  - lia.
+  - apply freqs_length.
+  - apply (fft_frequency_step fs n O Hn). lia.
+  - rewrite map_length, Hph. lia.
+  - intros row Hr. apply in_map_iff in Hr. destruct Hr as (r & <- & _). discriminate.
+  - intros f df Hin. rewrite (combine_dfs_value fs n f df Hn Hin).
+    apply Rmult_le_pos; [|apply He]. apply Rmult_le_pos; [|exact Hdth].
+    left. apply Rdiv_lt_0_compat; [exact Hfs|]. apply lt_0_INR. lia.
+Qed.
+
+(* the k-th energy term written out: (fs/nfft) * dtheta * E_k * |factor_k|^2 at f_k = k fs/nfft *)
+Lemma energy_terms_nth : forall c xp fg dfs th dth e k, (k < length fg)%nat -> (k < length dfs)%nat ->
+  nth k (energy_terms c xp fg dfs th dth e) 0 =
+  (nth k dfs 0 * dth) * interp0 xp e (nth k fg 0) * factor_abs2 c (2 * PI * nth k fg 0) (rad th).
+Proof.
+  intros c xp fg. induction fg as [|f fg IH]; intros dfs th dth e k H1 H2; [cbn in H1; lia|].
+  destruct dfs as [|df dfs]; [cbn in H2; lia|].
+  destruct k as [|k]; [reflexivity|]. cbn [energy_terms nth]. apply IH; cbn in *; lia.
+Qed.
